@@ -369,7 +369,8 @@ pub fn run(cfg: &RunCfg) -> Report {
 /// (smaller) number: the width must follow the own number
 fn run_named(rep: &mut Report) {
     let bs: Vec<i128> = boundary_set().into_iter().filter(|v| *v > 0).collect();
-    let mut body = String::from("Aaa-Decoy ::= INTEGER { top(7), low(1) }\nAab-Decoy ::= ENUMERATED { top(3), low(0) }\n");
+    // decoys: types that sort first and give the same names other numbers, and value assignments of those names
+    let mut body = String::from("Aaa-Decoy ::= INTEGER { top(7), low(1) }\nAab-Decoy ::= ENUMERATED { top(3), low(0) }\ntop INTEGER ::= 5\nlow INTEGER ::= 2\n");
     for (k, v) in bs.iter().enumerate() {
         body.push_str(&format!("Zz{k} ::= INTEGER {{ low(0), top({v}) }} (low..top)\n"));
     }
@@ -439,7 +440,12 @@ fn gen_sets(cfg: &RunCfg) -> Vec<SetCase> {
             } else {
                 let los: Vec<i128> = bs.iter().cloned().filter(|v| *v <= anchor).collect();
                 let his: Vec<i128> = bs.iter().cloned().filter(|v| *v >= anchor).collect();
-                elems.push((if rng.chance(1, 10) { None } else { Some(*rng.pick(&los)) }, if rng.chance(1, 10) { None } else { Some(*rng.pick(&his)) }, false));
+                // an intersection may also name the anchor itself as a single value, in any operand position
+                if rng.chance(1, 5) {
+                    elems.push((Some(anchor), Some(anchor), true));
+                } else {
+                    elems.push((if rng.chance(1, 10) { None } else { Some(*rng.pick(&los)) }, if rng.chance(1, 10) { None } else { Some(*rng.pick(&his)) }, false));
+                }
             }
         }
         let marker = rng.chance(1, 5);
